@@ -8,7 +8,8 @@ markers" hold for EVERY received line, version and fault schedule by the generic
 the generated `message_buffer=` flags (a reaction sent with buffering on breaks `reactions_not_parked`).
 The last part is the equation `writes = expectedWrites`: the handler model refines the readable
 reaction table of `Model/WriteSpec.lean`, for every state, configuration, version and message —
-and, with `expectedAttempts`, under every schedule of failing writes.
+and, with `expectedAttempts` / `expectedExn`, under every schedule of completing, failing and
+cancelled writes (the exception the step ends in is that of the last attempt that did not complete).
 -/
 import AioMySensors.Properties.C07
 import AioMySensors.Properties.C02
@@ -105,6 +106,7 @@ theorem onlyReactions_stepRel (m : Msg) : StepRel (OnlyReactions m) m where
   write := fun sm hr => ⟨fun w => by
     simp only [transportWrite]
     split
+    · exact ⟨[⟨encode sm, false⟩], rfl, by simpa using ⟨sm, hr, rfl⟩⟩
     · exact ⟨[⟨encode sm, false⟩], rfl, by simpa using ⟨sm, hr, rfl⟩⟩
     · exact ⟨[⟨encode sm, true⟩], rfl, by simpa using ⟨sm, hr, rfl⟩⟩
     · exact ⟨[⟨encode sm, true⟩], rfl, by simpa using ⟨sm, hr, rfl⟩⟩⟩
@@ -403,22 +405,85 @@ theorem dispatch_acts (env : Env) (m : Msg) (w : W) (hcmd : 0 ≤ m.cmd ∧ m.cm
 /-- Successful write events for lines. -/
 def okEvents (ls : List Str) : List WriteEvt := ls.map fun l => ⟨l, true⟩
 
-/-- Without failing writes the attempts of the specification are all its lines, each successful. -/
+/-- Without failing or cancelled writes the attempts of the specification are all its lines, each successful. -/
 theorem attempts_nofault (env : Env) (st : St) (m : Msg) :
-    attempts env st m [] = (okEvents (expectedWrites env st m), [], false) := by
+    attempts env st m [] = (okEvents (expectedWrites env st m), [], none) := by
   simp [attempts, andThen, attempt_nofault, expectedWrites, expectedMsgs, okEvents]
 
-/-- **Under every schedule of failing writes** the write attempts of the dispatch are exactly the
-specification's: the first segment up to its first failure, then the version query even after a
-failure (it is sent from a `finally` clause), then the command-level presentation request only if
-nothing failed.  If an attempt failed the step ends in the transport error, and the schedule is
-consumed one entry per attempt. -/
+/-- Under a schedule of `pass` entries only, an attempt writes every line and consumes one entry each. -/
+theorem attempt_allpass (ls : List Str) (fs : List Fault) (h : ∀ f ∈ fs, f = .pass) :
+    attempt ls fs = (okEvents ls, fs.drop ls.length, none) := by
+  induction ls generalizing fs with
+  | nil => simp [attempt_nil, okEvents]
+  | cons l ls ih =>
+    cases fs with
+    | nil => simp [attempt, okEvents, ih [] (by simp)]
+    | cons f fs =>
+      have hf : f = .pass := h f (by simp)
+      subst hf
+      simp [attempt, Fault.exn, okEvents, ih fs (fun g hg => h g (by simp [hg]))]
+
+theorem andThen_allpass (a : Att) (ls : List Str) (h : ∀ f ∈ a.2.1, f = .pass) :
+    andThen a (attempt ls) = (a.1 ++ okEvents ls, a.2.1.drop ls.length, a.2.2) := by
+  simp [andThen, attempt_allpass _ _ h]
+
+/-- … and so does the whole step. -/
+theorem attempts_allpass (env : Env) (st : St) (m : Msg) (fs : List Fault) (h : ∀ f ∈ fs, f = .pass) :
+    attempts env st m fs = (okEvents (expectedWrites env st m), fs.drop (expectedWrites env st m).length, none) := by
+  have hd : ∀ n, ∀ f ∈ fs.drop n, f = .pass := fun n f hf => h f (List.mem_of_mem_drop hf)
+  unfold attempts
+  rw [attempt_allpass _ _ h, andThen_allpass _ _ (hd _)]
+  simp only [Option.isSome_none, Bool.false_eq_true, if_false]
+  rw [andThen_allpass _ _ (by simpa using hd _)]
+  simp [expectedWrites, expectedMsgs, okEvents, Nat.add_assoc]
+
+/-- **Under every schedule of completing, failing and cancelled writes** the write attempts of the
+dispatch are exactly the specification's: the first segment up to its first write that does not
+complete, then the version query even after that (it is sent from a `finally` clause, which also
+runs when the task was cancelled), then the command-level presentation request only if everything
+before completed.  The schedule left is the specification's, and if some attempt did not complete
+the step ends in `expectedExn`: the exception of the LAST attempt that did not complete (see
+`expectedExn_is_last`) — a failing or cancelled version query replaces the handler's exception. -/
 theorem writes_eq_attempts (env : Env) (m : Msg) (w : W) (hcmd : 0 ≤ m.cmd ∧ m.cmd ≤ 4) (hs : ParkedSets w.st m.node) :
     (dispatch env w.st.proto m w).2.writes = w.writes ++ expectedAttempts env w.st m w.faults ∧
     (dispatch env w.st.proto m w).2.faults = (attempts env w.st m w.faults).2.1 ∧
-    ((attempts env w.st m w.faults).2.2 = true → (dispatch env w.st.proto m w).1 = .error (.lib .transportFailed)) := by
+    (∀ e, expectedExn env w.st m w.faults = some e → (dispatch env w.st.proto m w).1 = .error e) := by
   obtain ⟨_, _, _, h⟩ := dispatch_acts env m w hcmd hs
-  exact ⟨h.writes, h.faults, h.failed⟩
+  exact ⟨h.writes, h.faults, fun e he => (h.failed e he).1⟩
+
+/-- **Which exception**: the `k`-th attempt of the step consumes the `k`-th entry of the schedule
+(a schedule that ran out counts as `pass`) and is logged as written iff that entry is `pass`; the
+schedule left is the rest; and `expectedExn` is the exception of the last consumed entry that is
+not `pass` — `TransportFailedError` for `fail`, `CancelledError` for `cancel`. -/
+theorem expectedExn_is_last (env : Env) (st : St) (m : Msg) (fs : List Fault) :
+    (attempts env st m fs).2.1 = fs.drop (expectedAttempts env st m fs).length ∧
+    (∀ k (h : k < (expectedAttempts env st m fs).length),
+      (expectedAttempts env st m fs)[k].ok = ((fs[k]?).getD .pass).ok) ∧
+    expectedExn env st m fs = lastExn (fs.take (expectedAttempts env st m fs).length) :=
+  let h := consumes_attempts env st m fs
+  ⟨h.left, h.ok, h.exn⟩
+
+/-- The exception of a step is the transport error or the cancellation, … -/
+theorem expectedExn_cases (env : Env) (st : St) (m : Msg) (fs : List Fault) (e : Exn)
+    (h : expectedExn env st m fs = some e) : e = .lib .transportFailed ∨ e = .foreign .CancelledError :=
+  lastExn_cases _ e ((expectedExn_is_last env st m fs).2.2 ▸ h)
+
+/-- … the cancellation iff the last consumed entry that is not `pass` is `cancel`, … -/
+theorem expectedExn_cancel_iff (env : Env) (st : St) (m : Msg) (fs : List Fault) :
+    expectedExn env st m fs = some (.foreign .CancelledError) ↔
+      ∃ pre post, fs.take (expectedAttempts env st m fs).length = pre ++ .cancel :: post ∧ ∀ g ∈ post, g = .pass := by
+  rw [(expectedExn_is_last env st m fs).2.2, lastExn_eq_some_iff]
+  constructor
+  · rintro ⟨pre, f, post, h1, h2, h3⟩
+    cases f <;> simp [Fault.exn] at h2
+    exact ⟨pre, post, h1, h3⟩
+  · rintro ⟨pre, post, h1, h3⟩
+    exact ⟨pre, .cancel, post, h1, rfl, h3⟩
+
+/-- … and there is none iff every consumed entry is `pass`: then every attempt is logged as written. -/
+theorem expectedExn_none_iff (env : Env) (st : St) (m : Msg) (fs : List Fault) :
+    expectedExn env st m fs = none ↔ ∀ f ∈ fs.take (expectedAttempts env st m fs).length, f = .pass := by
+  rw [(expectedExn_is_last env st m fs).2.2, lastExn_none_iff]
 
 /-- **`writes = expectedWrites`.** For every state, configuration and message with a valid command,
 when no write fails the lines written while the message is handled are exactly
@@ -427,6 +492,15 @@ theorem writes_eq_expected (env : Env) (m : Msg) (w : W) (hcmd : 0 ≤ m.cmd ∧
     (hf : w.faults = []) :
     (dispatch env w.st.proto m w).2.writes = w.writes ++ okEvents (expectedWrites env w.st m) := by
   rw [(writes_eq_attempts env m w hcmd hs).1, expectedAttempts, hf, attempts_nofault]
+
+/-- The same under a schedule that only has `pass` entries; it is consumed one entry per line. -/
+theorem writes_eq_expected_allpass (env : Env) (m : Msg) (w : W) (hcmd : 0 ≤ m.cmd ∧ m.cmd ≤ 4)
+    (hs : ParkedSets w.st m.node) (hf : ∀ f ∈ w.faults, f = .pass) :
+    (dispatch env w.st.proto m w).2.writes = w.writes ++ okEvents (expectedWrites env w.st m) ∧
+    (dispatch env w.st.proto m w).2.faults = w.faults.drop (expectedWrites env w.st m).length := by
+  obtain ⟨h1, h2, _⟩ := writes_eq_attempts env m w hcmd hs
+  rw [h1, h2, expectedAttempts, attempts_allpass env w.st m w.faults hf]
+  exact ⟨rfl, rfl⟩
 
 /-- The same for the whole receive step of a line that decodes to `m` (the decoder only yields
 valid commands). -/
@@ -440,66 +514,73 @@ theorem recv_writes_eq_expected (env : Env) (line : Str) (m : Msg) (w : W) (hd :
 
 theorem recv_writes_eq_attempts (env : Env) (line : Str) (m : Msg) (w : W) (hd : decode w.st.proto line = some m)
     (hs : ParkedSets w.st m.node) :
-    (recv env line w).2.writes = w.writes ++ expectedAttempts env w.st m w.faults := by
+    (recv env line w).2.writes = w.writes ++ expectedAttempts env w.st m w.faults ∧
+    (∀ e, expectedExn env w.st m w.faults = some e → (recv env line w).1 = .error e) := by
   have hr := C02.rejects_out_of_range _ _ _ hd
   have : recv env line w = dispatch env w.st.proto m w := by simp [recv, M.bind, M.getSt, hd]
   rw [this]
-  exact (writes_eq_attempts env m w ⟨hr.2.2.2.2.1, hr.2.2.2.2.2.1⟩ hs).1
+  obtain ⟨h1, _, h3⟩ := writes_eq_attempts env m w ⟨hr.2.2.2.2.1, hr.2.2.2.2.2.1⟩ hs
+  exact ⟨h1, h3⟩
 
 /-- Every state a history reaches from the empty gateway satisfies the hypothesis on the sleep buffer. -/
 theorem parkedSets_reachable (ops : List Op) (n : Int) : ParkedSets (stateAfter {} ops) n :=
   parkedSets_of_sbufSet (C07.sbufInv_history ops {} C07.sbufInv_init).2 n
 
-/-- **Along every history**: whatever was received and sent before (with or without failing
-writes), a line that decodes to `m` and meets no failing write makes the controller write exactly
-`expectedWrites` of the state reached — no hypothesis on the state is left. -/
+/-- **Along every history**: whatever was received and sent before (with or without failing or
+cancelled writes), a line that decodes to `m` and meets no failing write makes the controller write
+exactly `expectedWrites` of the state reached — no hypothesis on the state is left. -/
 theorem history_writes_eq_expected (ops : List Op) (env : Env) (line : Str) (m : Msg)
     (hd : decode (stateAfter {} ops).proto line = some m) :
     (recv env line { st := stateAfter {} ops }).2.writes = okEvents (expectedWrites env (stateAfter {} ops) m) := by
   simpa using recv_writes_eq_expected env line m { st := stateAfter {} ops } hd (parkedSets_reachable ops m.node) rfl
 
-/-- … and under any schedule of failing writes, exactly `expectedAttempts`. -/
-theorem history_writes_eq_attempts (ops : List Op) (env : Env) (line : Str) (m : Msg) (faults : List Bool)
+/-- … and under any schedule of completing, failing and cancelled writes, exactly
+`expectedAttempts`, ending in `expectedExn` when an attempt did not complete. -/
+theorem history_writes_eq_attempts (ops : List Op) (env : Env) (line : Str) (m : Msg) (faults : List Fault)
     (hd : decode (stateAfter {} ops).proto line = some m) :
     (recv env line { st := stateAfter {} ops, faults := faults }).2.writes =
-      expectedAttempts env (stateAfter {} ops) m faults := by
+      expectedAttempts env (stateAfter {} ops) m faults ∧
+    (∀ e, expectedExn env (stateAfter {} ops) m faults = some e →
+      (recv env line { st := stateAfter {} ops, faults := faults }).1 = .error e) := by
   simpa using recv_writes_eq_attempts env line m { st := stateAfter {} ops, faults := faults } hd
     (parkedSets_reachable ops m.node)
 
-/-! ### The shape under failing writes, in words -/
+/-! ### The shape under failing and cancelled writes, in words -/
 
 /-- An attempt writes a prefix of its lines. -/
-theorem attempt_lines_prefix (ls : List Str) (fs : List Bool) : (attempt ls fs).1.map (·.line) <+: ls := by
+theorem attempt_lines_prefix (ls : List Str) (fs : List Fault) : (attempt ls fs).1.map (·.line) <+: ls := by
   induction ls generalizing fs with
   | nil => simp [attempt_nil]
   | cons l ls ih =>
-    rcases fs with _ | ⟨_ | _, fs⟩
+    rcases fs with _ | ⟨_ | _ | _, fs⟩
     · simpa [attempt] using ih []
-    · simpa [attempt] using ih fs
-    · simp [attempt, List.prefix_cons_iff]
+    · simpa [attempt, Fault.exn] using ih fs
+    · simp [attempt, Fault.exn, List.prefix_cons_iff]
+    · simp [attempt, Fault.exn, List.prefix_cons_iff]
 
-/-- … all of them unless a write failed, … -/
-theorem attempt_lines_all (ls : List Str) (fs : List Bool) (h : (attempt ls fs).2.2 = false) :
+/-- … all of them unless a write did not complete, … -/
+theorem attempt_lines_all (ls : List Str) (fs : List Fault) (h : (attempt ls fs).2.2 = none) :
     (attempt ls fs).1 = okEvents ls := by
   induction ls generalizing fs with
   | nil => simp [attempt_nil, okEvents]
   | cons l ls ih =>
-    rcases fs with _ | ⟨_ | _, fs⟩
+    rcases fs with _ | ⟨_ | _ | _, fs⟩
     · simp only [attempt] at h ⊢; simpa [okEvents] using ih [] h
-    · simp only [attempt] at h ⊢; simpa [okEvents] using ih fs h
-    · simp [attempt] at h
+    · simp only [attempt, Fault.exn] at h ⊢; simpa [okEvents] using ih fs h
+    · simp [attempt, Fault.exn] at h
+    · simp [attempt, Fault.exn] at h
 
 /-- … and a single line is always attempted. -/
-theorem attempt_single (l : Str) (fs : List Bool) : (attempt [l] fs).1.map (·.line) = [l] := by
-  rcases fs with _ | ⟨_ | _, fs⟩ <;> simp [attempt]
+theorem attempt_single (l : Str) (fs : List Fault) : (attempt [l] fs).1.map (·.line) = [l] := by
+  rcases fs with _ | ⟨_ | _ | _, fs⟩ <;> simp [attempt, Fault.exn]
 
 theorem query_length (st : St) (m : Msg) : (query st m).length ≤ 1 := by
   unfold query; split <;> simp
 
-/-- **The attempted lines under an arbitrary fault schedule**: a prefix `p` of the first segment
+/-- **The attempted lines under an arbitrary schedule**: a prefix `p` of the first segment
 (the handler's reactions; for internal messages including the presentation request), then the
-version query whenever the specification has it — also after a failed write —, then a prefix `r`
-of the last segment, which is empty unless everything before succeeded. -/
+version query whenever the specification has it — also after a failed or cancelled write —, then a
+prefix `r` of the last segment, which is empty unless everything before completed. -/
 theorem writes_prefix_of_expected (env : Env) (m : Msg) (w : W) (hcmd : 0 ≤ m.cmd ∧ m.cmd ≤ 4) (hs : ParkedSets w.st m.node) :
     ∃ p r, ((dispatch env w.st.proto m w).2.writes.drop w.writes.length).map (·.line) =
         p ++ (query w.st m).map encode ++ r ∧
@@ -515,13 +596,13 @@ theorem writes_prefix_of_expected (env : Env) (m : Msg) (w : W) (hcmd : 0 ≤ m.
     | [q] => simpa using attempt_single (encode q) fs
     | _ :: _ :: _ => rw [hql] at this; simp at this
   cases hfail : (andThen (attempt ((first env w.st m).map encode) w.faults) (attempt ((query w.st m).map encode))).2.2 with
-  | true =>
+  | some e =>
     refine ⟨[], ?_, attempt_lines_prefix _ _, List.nil_prefix, by simp⟩
-    simp only [expectedAttempts, attempts, hfail, if_true]
+    simp only [expectedAttempts, attempts, hfail, Option.isSome_some, if_true]
     simp [andThen, hq]
-  | false =>
-    have h1 : (attempt ((first env w.st m).map encode) w.faults).2.2 = false := by
-      simp only [andThen, Bool.or_eq_false_iff] at hfail; exact hfail.1
+  | none =>
+    have h1 : (attempt ((first env w.st m).map encode) w.faults).2.2 = none := by
+      simp only [andThen, Option.or_eq_none_iff] at hfail; exact hfail.2
     refine ⟨(attempt ((last w.st m).map encode) (andThen (attempt ((first env w.st m).map encode) w.faults)
       (attempt ((query w.st m).map encode))).2.1).1.map (·.line), ?_, attempt_lines_prefix _ _, attempt_lines_prefix _ _, ?_⟩
     · simp only [expectedAttempts, attempts, hfail]
@@ -590,13 +671,25 @@ example : expectedWrites {} {} ⟨0, 255, 3, 0, 2, "2.1".toList⟩ = [] ∧
     expectedWrites {} {} ⟨0, 255, 3, 0, 2, "x".toList⟩ = ["0;255;3;0;2;\n".toList] ∧
     expectedWrites {} {} ⟨0, 255, 0, 0, 18, "2.2".toList⟩ = [] := by decide
 
-/-- Failing writes: the first released command fails — the second is not attempted, the version
-query still is; and a failed version query suppresses the command-level presentation request. -/
-example : expectedAttempts {} (exSt .v21 none) ⟨2, 255, 3, 0, 22, "5".toList⟩ [true] =
+/-- Writes that do not complete: the first released command fails — the second is not attempted,
+the version query still is; a failed version query suppresses the command-level presentation
+request.  A cancelled write gives the same attempts as a failed one. -/
+example : expectedAttempts {} (exSt .v21 none) ⟨2, 255, 3, 0, 22, "5".toList⟩ [.fail] =
       [⟨"2;0;1;0;2;a\n".toList, false⟩, ⟨"0;255;3;0;2;\n".toList, true⟩] ∧
-    expectedAttempts {} (exSt .v20 none) ⟨9, 0, 1, 0, 2, "1".toList⟩ [true] = [⟨"0;255;3;0;2;\n".toList, false⟩] ∧
-    expectedAttempts {} (exSt .v20 none) ⟨9, 0, 1, 0, 2, "1".toList⟩ [false, true] =
+    expectedAttempts {} (exSt .v21 none) ⟨2, 255, 3, 0, 22, "5".toList⟩ [.cancel] =
+      [⟨"2;0;1;0;2;a\n".toList, false⟩, ⟨"0;255;3;0;2;\n".toList, true⟩] ∧
+    expectedAttempts {} (exSt .v20 none) ⟨9, 0, 1, 0, 2, "1".toList⟩ [.fail] = [⟨"0;255;3;0;2;\n".toList, false⟩] ∧
+    expectedAttempts {} (exSt .v20 none) ⟨9, 0, 1, 0, 2, "1".toList⟩ [.pass, .cancel] =
       [⟨"0;255;3;0;2;\n".toList, true⟩, ⟨"9;255;3;0;19;\n".toList, false⟩] := by decide
+
+/-- The exception the step ends in is that of the last attempt that did not complete: the task is
+cancelled in the first released command and the version query in the `finally` clause then fails
+— the step ends in the transport error; the other way round it ends in the cancellation; a
+cancelled command followed by a completed query ends in the cancellation; all completed: none. -/
+example : expectedExn {} (exSt .v21 none) ⟨2, 255, 3, 0, 22, "5".toList⟩ [.cancel, .fail] = some (.lib .transportFailed) ∧
+    expectedExn {} (exSt .v21 none) ⟨2, 255, 3, 0, 22, "5".toList⟩ [.fail, .cancel] = some (.foreign .CancelledError) ∧
+    expectedExn {} (exSt .v21 none) ⟨2, 255, 3, 0, 22, "5".toList⟩ [.cancel] = some (.foreign .CancelledError) ∧
+    expectedExn {} (exSt .v21 none) ⟨2, 255, 3, 0, 22, "5".toList⟩ [.pass, .pass, .pass, .fail] = none := by decide
 
 /-- The theorem applied: the writes of the handler model for a wake in the example state, obtained
 from the specification without running the handlers. -/
